@@ -53,6 +53,12 @@ pub proof fn documented_defaults()
     V("Identifier::to_generic", "to_generic", ["C01", "C05"], FnSpec(ret="r", sig="""
     ensures match r { Ok(i) => ident_of(*self) == Some(i), Err(_) => ident_of(*self) is None }, //@C01.identifier_is_built_from_the_configured_name_and_type,C05.identifier_carries_its_configured_challenge
 """))
+    # the check serde runs on every [[certificate.identifiers]] entry (the derived reader of the fields is serde's: Identifier::deserialize of
+    # `#[serde(remote = "Self")]`, a stub here): an entry is taken only with exactly one of `dns` and `ip`
+    V("impl <'de> Deserialize<'de> for Identifier", "deserialize", ["C01", "C19"], FnSpec(ret="r", rewrites=[
+        ("T-ITER", r"\[(?P<a>[^\[\],]+),\s*(?P<b>[^\[\],]+)\]\s*\.iter\(\)\s*\.copied\(\)\s*\.map\(u8::from\)\s*\.sum\(\)", r"crate::shims::count_true2(\g<a>, \g<b>)", None)], sig="""
+    ensures r matches Ok(i) ==> (i.dns is Some) != (i.ip is Some), //@C01.an_identifier_entry_names_exactly_one_of_dns_and_ip,C19.an_identifier_entry_names_exactly_one_of_dns_and_ip
+"""))
     V("Certificate::get_identifiers", "get_identifiers", ["C01", "C05"], FnSpec(ret="r", sig="""
     ensures
         r matches Ok(v) ==> v@.len() == self.identifiers@.len()
@@ -134,6 +140,12 @@ pub open spec fn subject_map(s: SubjectAttributes) -> Map<SubjectAttribute, Stri
 """
 
 TRUSTED = """
+// serde: the derived field reader of `#[serde(remote = "Self")]` (an inherent function), and a custom error
+impl Identifier {
+    #[verifier::external_body]
+    pub fn deserialize<'de, D: Deserializer<'de>>(deserializer: D) -> (r: Result<Identifier, D::Error>) { unimplemented!() }
+}
+
 // impl fmt::Display for Identifier (config.rs): the dns name, else the ip address, else nothing
 #[verifier::external]
 impl std::fmt::Display for Identifier { fn fmt(&self, f: &mut std::fmt::Formatter) -> std::fmt::Result { Ok(()) } }
